@@ -132,6 +132,12 @@ def taskSem : Sem :=
   { ops := execOps, fin := finOps, cmdFailFatal := cmdFailFatal, oPlace := oPlace,
     renameSrcTemp := renameSrcTemp, streamsExempt := streamsExempt }
 
+/-- every statement of `Execute` and `FinalizePaths` was understood: it is one of the modelled ops or a
+call known to have no effect on the footprint (`harmlessCalls`); anything else (a new call, a goroutine,
+a send on another channel) makes the models of C01–C03, C09 and C17 inapplicable -/
+def taskSemKnown : Bool :=
+  taskSem.ops.all (· != .unknown) && taskSem.fin.all (· != .unknown)
+
 /-! ### slots -/
 
 /-- `IncConcurrentTasks`: Lock … for i < slots { concurrentTasks <- … } … Unlock, nothing else -/
